@@ -50,6 +50,9 @@ var slack = 4 * time.Second
 
 var hangCap = 6 * time.Second
 
+var knownShapeHangs = 0
+var maxKnownShapeHangs = 1
+
 const settleMax = 10 * time.Second
 
 // ---- servers ----
@@ -462,15 +465,23 @@ func exec(line string, st *hx.Stats) string {
 	if err != nil {
 		return "setup-error " + strings.ReplaceAll(err.Error(), "\t", " ")
 	}
-	o := runOnce(sv, storeID, rq, mode, ms)
-	g := "ok"
-	extra := ""
 	dup := 0
 	if dupThis(m) {
 		dup = 1
 	}
+	if cfg == "pipe" && dup == 1 && (rpc == "listobjects" || rpc == "streamed") && knownShapeHangs >= maxKnownShapeHangs {
+		// each hang costs a watchdog and parks goroutines for good: observe the known shape (finding L4) only a few times per run
+		st.Inc("skipped-known-hang-shape")
+		return "res=skipped t=skipped g=skipped dup=1"
+	}
+	o := runOnce(sv, storeID, rq, mode, ms)
+	g := "ok"
+	extra := ""
 	if o.t == "hang" {
 		st.Inc("hang")
+		if cfg == "pipe" && dup == 1 {
+			knownShapeHangs++
+		}
 		return fmt.Sprintf("res=%s t=hang g=unknown dup=%d stk=%s", o.res, dup, stacks())
 	}
 	if o.t == "late" {
@@ -616,6 +627,7 @@ func main() {
 	for _, a := range os.Args {
 		if a == "thorough" {
 			hangCap = 30 * time.Second
+			maxKnownShapeHangs = 2
 		}
 	}
 	hx.Main(hx.Harness{Gen: gen, Exec: exec})
